@@ -166,6 +166,12 @@ def native_replay(crate_dir, harness_name, concrete_vals, target_name, timeout=6
             stubs = re.findall(r"#\[kani::stub\(\s*([\w:<>]+)\s*,\s*([\w:]+)\s*\)\]", m.group(1))
             break
     if not hfile:
+        # harness generated by a macro_rules! invocation `some_macro!(harness_name, ...)`
+        for p, t in files.items():
+            if re.search(r"\w+!\(\s*" + re.escape(harness_name) + r"\b", t):
+                hfile = p
+                break
+    if not hfile:
         return {"input_found": False, "detail": "harness source not found for native replay"}
     # module path of the harness file (for the stub path): stubs are named relative to the harness module
     new_files = {}
@@ -192,6 +198,9 @@ def native_replay(crate_dir, harness_name, concrete_vals, target_name, timeout=6
                          + harness_name + "();\n}\n")
     lib = os.path.join(src, "lib.rs")
     new_files[lib] = new_files[lib] + "\n" + SHIM
+    for p in list(new_files):
+        if p != lib and "kani::" in new_files[p]:
+            new_files[p] = _insert_use(new_files[p], "#[cfg(verif_replay)]\n#[allow(unused_imports)]\nuse crate::kani;\n")
     for p, t in new_files.items():
         write(p, t)
     ct = os.path.join(rdir, "Cargo.toml")
@@ -214,6 +223,15 @@ def native_replay(crate_dir, harness_name, concrete_vals, target_name, timeout=6
         return {"input_found": True, "detail": "native execution of the real function bodies with the verifier's values fails: " + msg,
                 "concrete_vals": concrete_vals, "notes": notes, "cmd": "RUSTFLAGS='--cfg verif_replay' cargo test --lib verif_replay_main"}
     return {"input_found": False, "detail": "native execution with the verifier's values did not fail (the failing check may be a CBMC-level check or a contract-internal assertion)", "notes": notes}
+
+
+def _insert_use(text, line):
+    """insert an item after the leading inner attributes / comments of a module file"""
+    lines = text.split("\n")
+    i = 0
+    while i < len(lines) and (lines[i].startswith("#![") or lines[i].startswith("//") or not lines[i].strip()):
+        i += 1
+    return "\n".join(lines[:i]) + "\n" + line + "\n".join(lines[i:])
 
 
 def _module_path(src_root, file_path):
